@@ -46,6 +46,8 @@ def shapes(tier):
             out.append({"op": "pack_unpack", "n": n, "nonlinear_only": nl_only})
         out.append({"op": "index", "n": n})
         out.append({"op": "reduce", "n": n})
+    # reductions of a table stored in non-default units (the result keeps the table's units)
+    out.append({"op": "reduce", "n": 2, "P_unit": "sym", "omega_unit": "deg", "angle_unit": "deg"})
     # call history on one object: times asked for, then M0 / P re-assigned, then asked again
     out.append({"op": "time_with_phase", "n": 2, "P_unit": "day", "angle_unit": "rad", "history": "setitem"})
     out.append({"op": "time_with_phase", "n": 1, "P_unit": "sym", "angle_unit": "deg", "history": "setitem"})
@@ -164,7 +166,7 @@ def run_shape(shape, tier):
             col = s["P"]
             return s, cells, un, tref, (outs, col)
         if op == "reduce":
-            s, cells, un, tref = _mk_samples(st, shape, n)
+            s, cells, un, tref = _mk_samples(st, shape, n, omega_unit=shape.get("omega_unit", "rad"), P_unit=shape.get("P_unit", "day"), angle_unit=shape.get("angle_unit"))
             return s, cells, un, tref, (s.mean(), s.median_period())
         raise ValueError(op)
 
@@ -401,6 +403,8 @@ def replay(cand):
             for c in COLS:
                 if not np.allclose(np.atleast_1d(mean[c].to_value(un[c])), raw[c].mean(), rtol=1e-10, atol=1e-12):
                     bad.append("mean of %s wrong" % c)
+                if mean[c].unit != un[c]:
+                    bad.append("mean() returns %s in %s, the table stores it in %s" % (c, mean[c].unit, un[c]))
             meta_ok(mean, "mean")
             med = s.median_period()
             if len(med) != 1:
